@@ -249,16 +249,18 @@ package hessian
 //@ func (*Encoder).WriteObject
 //@   requires e.nameMap != nil && e.refMap != nil
 //@   requires mapsize(e.refMap) + @clashes == @opens
-//@   assigns @out, @W, @E, @nwrites, @tr, @opens, @clashes, @lastwriter, @startcls, @startrefs, e.clsDefList, mapof(e.refMap), mapof(e.nameMap)
+//@   assigns @out, @W, @E, @nwrites, @tr, @opens, @clashes, @lastwriter, @startcls, @startrefs, e.clsDefList, e.failed, mapof(e.refMap), mapof(e.nameMap)
 //@   ensures [C15:W] (@W && !old(@W)) ==> err != nil
 //@   ensures [C13:E] (@E && !old(@E)) ==> err != nil
-//@   ensures [C06,C02:one-value] err == nil ==> @tr == snoc(old(@tr), TVal(data))
-//@   ensures [C06:tables-continue] @startcls == len(old(e.clsDefList)) && @startrefs == old(mapsize(e.refMap))
+//@   ensures [C06,C02:one-value] err == nil ==> @tr == snoc(old(@tr), TVal(data)) && old(e.failed) == nil
+//@   ensures [C06:tables-continue] old(e.failed) == nil ==> @startcls == len(old(e.clsDefList)) && @startrefs == old(mapsize(e.refMap))
 //@   ensures [C04:inv-ordinals] err == nil ==> mapsize(e.refMap) + @clashes == @opens
+//@   ensures [C13:stream-stays-failed] old(e.failed) != nil ==> err != nil && @tr == old(@tr) && @out == old(@out)
+//@   ensures [C13:failure-remembered]  err != nil ==> e.failed != nil
 
 //@ func (*Encoder).WriteTo
 //@   requires e.nameMap != nil
-//@   assigns @out, @W, @E, @nwrites, @tr, @opens, @clashes, @lastwriter, @startcls, @startrefs, e.writer, e.clsDefList, e.refMap, mapof(e.nameMap)
+//@   assigns @out, @W, @E, @nwrites, @tr, @opens, @clashes, @lastwriter, @startcls, @startrefs, e.writer, e.clsDefList, e.refMap, e.failed, mapof(e.nameMap)
 //@   ensures [C15:W] (@W && !old(@W)) ==> err != nil
 //@   ensures [C13:E] (@E && !old(@E)) ==> err != nil
 //@   ensures [C11:one-shot-from-reset-state] @startcls == 0 && @startrefs == 0 && e.writer == w
@@ -266,7 +268,7 @@ package hessian
 
 //@ func (*Encoder).Encode
 //@   requires e.nameMap != nil
-//@   assigns @out, @W, @E, @nwrites, @tr, @opens, @clashes, @lastwriter, @startcls, @startrefs, e.writer, e.clsDefList, e.refMap, mapof(e.nameMap)
+//@   assigns @out, @W, @E, @nwrites, @tr, @opens, @clashes, @lastwriter, @startcls, @startrefs, e.writer, e.clsDefList, e.refMap, e.failed, mapof(e.nameMap)
 //@   ensures [C13:E] (@E && !old(@E)) ==> err != nil
 //@   ensures [C11:one-shot-from-reset-state] @startcls == 0 && @startrefs == 0
 //@   ensures [C11,C02:one-shot-one-value]    err == nil ==> @tr == snoc(emp, TVal(object))
@@ -298,4 +300,5 @@ package hessian
 //@   ensures [C15:W] (@W && !old(@W)) ==> err != nil
 //@   ensures [C13:E] (@E && !old(@E)) ==> err != nil
 //@   ensures [C06,C02:one-value] err == nil ==> @tr == snoc(old(@tr), TVal(object))
-//@   ensures [C06:tables-continue] @startcls == len(old(gh.encoder.clsDefList)) && @startrefs == old(mapsize(gh.encoder.refMap))
+//@   ensures [C06:tables-continue] old(gh.encoder.failed) == nil ==> @startcls == len(old(gh.encoder.clsDefList)) && @startrefs == old(mapsize(gh.encoder.refMap))
+//@   ensures [C13:stream-stays-failed] old(gh.encoder.failed) != nil ==> err != nil && @out == old(@out)
